@@ -67,13 +67,11 @@ form("MULXU_B", P, "cpu.mulxu_b(op)", c(0x50), ANY8, group="C02mb")
 form("MULXU_W", P, "cpu.mulxu_w(op)", c(0x52), (0x00, 0xf7), group="C02mw")
 # DIVXU: proving two independent divider circuits equal is expensive for SAT (16/8: ~8 min) or out of reach (32/16).
 #   *_STRUCT  full domain, quotient/remainder lanes left open by the oracle: flags, other registers, PC, cost   (quick)
-#   *_SMALL   every register restricted to 4-bit lanes, full value check                                   (quick, BOUNDED)
-#   DIVXU_B   full domain, full value check                                                                (thorough)
+#   value of the destination for ALL operands: Verus unit `div` on the extracted divxu_b/divxu_w           (quick)
+#   DIVXU_B   full domain, full value check by CBMC as well                                                (thorough)
 form("DIVXU_B", P, "cpu.divxu_b(op)", c(0x51), ANY8, group="C02db", tier="thorough")
 form("DIVXU_B_STRUCT", P, "cpu.divxu_b(op)", c(0x51), ANY8, group="C02dq", oracle="DIVXU_B", relax=True)
-form("DIVXU_B_SMALL", P, "cpu.divxu_b(op)", c(0x51), ANY8, group="C02dq", oracle="DIVXU_B", regmask=0x0f0f0f0f, bounded="DIVXU.B value clause: registers restricted to 4-bit lanes (mask 0x0f0f0f0f)")
 form("DIVXU_W_STRUCT", P, "cpu.divxu_w(op)", c(0x53), (0x00, 0xf7), group="C02dq", oracle="DIVXU_W", relax=True)
-form("DIVXU_W_SMALL", P, "cpu.divxu_w(op)", c(0x53), (0x00, 0xf7), group="C02dq", oracle="DIVXU_W", regmask=0x000f000f, bounded="DIVXU.W value clause: registers restricted to 4-bit lanes (mask 0x000f000f); the full 32/16 divider equivalence is beyond CBMC's reach")
 
 # ---------------------------------------------------------------- C03 logic / shift / rotate
 P = "C03"
